@@ -238,9 +238,16 @@ func (f *fixture) settle() string {
 	}
 	now, prob := fsmodel.Walk(f.p, false)
 	if prob != "" {
-		// a phantom or unreadable node in the parent tree: decide whether it is outside
+		// a phantom, unreadable or very deep node: judge only the part outside the view root
+		out, prob2 := fsmodel.WalkSkip(f.p, strings.Join(f.chain, "/"))
+		res := ""
+		if prob2 != "" {
+			res = "parent tree outside the view root can no longer be walked: " + prob2
+		} else if d := fsmodel.Diff(outsideOf(f.pristine, f.chain), outsideOf(out, f.chain), ""); d != "" {
+			res = "the parent tree outside the view root changed: " + d
+		}
 		f.populate()
-		return "parent tree can no longer be walked: " + prob
+		return res
 	}
 	res := ""
 	if d := fsmodel.Diff(outsideOf(f.pristine, f.chain), outsideOf(now, f.chain), ""); d != "" {
